@@ -331,7 +331,10 @@ func (h *HopSpec) err() error {
 
 type SAct struct {
 	Op   string `json:"op"` // deliver | failread | wfail | wblock | stop | cancelserve | hstep | tick
-	Kind string `json:"kind,omitempty"` // wfail: the error the transport returns: "" plain | deadline | canceled | eof
+	// Kind: the error value the transport returns. wfail: "" plain | deadline | canceled | eof; failread: "" plain | proto (a
+	// genuine protobuf decode error) | ws (goat's non-binary-websocket-message error) | nettimeout | unexpectedeof | eof | w:<kind>
+	// (wrapped); failread with On: the failure happens once, then the peer is silent
+	Kind string `json:"kind,omitempty"`
 	// NoWait: the next action follows at once, no quiescent point (and no observation) in between
 	NoWait bool `json:"nowait,omitempty"`
 	D    int64  `json:"d,omitempty"`    // tick: milliseconds of virtual time
@@ -416,6 +419,7 @@ func (o svObs) coq() string {
 type svRig struct {
 	t           *testing.T
 	ep          *Endpoint
+	xep         *svEP
 	srv         *goat.Server
 	mu          sync.Mutex
 	events      []string
@@ -618,10 +622,10 @@ func svServeErrClass(err error) string {
 	switch {
 	case err == nil:
 		return "SNil"
-	case errors.Is(err, errInjected):
-		return "SRead"
-	case strings.Contains(err.Error(), "read error"):
-		return "SReadCtx"
+	case strings.HasPrefix(err.Error(), "read error") && errors.Is(err, context.Canceled):
+		return "SReadCtx" // the connection context ended while reading
+	case strings.HasPrefix(err.Error(), "read error"):
+		return "SRead" // the transport's own error, whatever its value
 	case strings.Contains(err.Error(), "write error"):
 		return "SWrite"
 	case errors.Is(err, context.Canceled):
@@ -715,7 +719,12 @@ func (r *svRig) do(a *SAct) bool {
 		r.delivered = append(r.delivered, a.F)
 		r.ep.Deliver(a.F.build(seq))
 	case "failread":
-		r.ep.FailRead(errInjected)
+		if a.On {
+			// once: this read fails, afterwards the peer is silent
+			r.xep.FailReadOnce(svReadErr(a.Kind))
+		} else {
+			r.ep.FailRead(svReadErr(a.Kind))
+		}
 	case "tick":
 		time.Sleep(time.Duration(a.D) * time.Millisecond)
 	case "wfail":
@@ -801,12 +810,13 @@ func runServerScenario(t *testing.T, idx int, kind string, next func(r *svRig, s
 	leaked := bubble(t, func(t *testing.T) {
 		goat.VerifResetTracking()
 		ep := NewEndpoint("server")
-		rig = &svRig{t: t, ep: ep}
+		xep := &svEP{Endpoint: ep}
+		rig = &svRig{t: t, ep: ep, xep: xep}
 		rig.srv = newEchoServer("dst", &echoImpl{unary: rig.unaryImpl, stream: rig.streamImpl})
 		ctx, cancel := context.WithCancel(context.Background())
 		rig.cancelServe = cancel
 		go func() {
-			err := rig.srv.Serve(ctx, ep)
+			err := rig.srv.Serve(ctx, xep)
 			rig.mu.Lock()
 			rig.serveRet, rig.serveErr = true, err
 			cls := svServeErrClass(err)
